@@ -104,6 +104,8 @@ class extract_visitor(NodeVisitor):
         name = node.target
         if node.value:
             self.visit(node.value)
+        else:
+            self.make_local(name)
         if isinstance(name, Attribute):
             self.top.add_attr_assign(self.flow.scope, name, node.value)  # type: ignore[arg-type]  # TODO
         elif isinstance(name, UNSUPPORTED_ASSIGMENTS):
@@ -113,6 +115,19 @@ class extract_visitor(NodeVisitor):
             self.flow.add_name(AssignedName(name.id, eend, np(name), node.value))
         self.visit(node.target)
         self.visit(node.annotation)
+
+    def make_local(self, target):
+        # type: (ast.AST) -> None
+        """`x += 1` and `x: int` bind nothing here but make x a local of the function"""
+        scope = self.flow.scope
+        if (isinstance(target, Name) and isinstance(scope, FuncScope)
+                and target.id not in scope.globals):
+            scope.locals.add(target.id)
+
+    def visit_AugAssign(self, node):
+        # type: (ast.AugAssign) -> None
+        self.make_local(node.target)
+        self.generic_visit(node)
 
     def visit_If(self, node):
         # type: (ast.If) -> None
